@@ -289,6 +289,18 @@ def handle : Handler := fun op args impl =>
         else "na"
       | _ => "na"
     some ⟨m, v⟩
+  | "refmutsaa", [alpha, sq, rf] => do
+    let alpha ← alpha.toNat?
+    let s := bytesOfString sq
+    let r := bytesOfString rf
+    let enc (o : Option (List (Byte × Int × List Byte))) : String := match o with
+      | some l => "ok " ++ strJoin (l.map fun (a, p, alt) => toString a.toNat ++ "." ++ toString p ++ "." ++ hexOfBytes alt)
+      | none => "err"
+    let m := enc (listMutationsVsRefAA alpha s r)
+    -- the list by definition (Spec.aaMutations: reference residues three by three located by counting, NCBI table 1,
+    -- independent of the model's walk), evaluated against the implementation's answer
+    let v := verdictOf (impl == enc (Spec.aaMutations alpha s r)) "aa-mutation-list-not-the-definition"
+    some ⟨m, v⟩
   | "compat", [a, b] => do
     let a ← a.toNat?
     let b ← b.toNat?
